@@ -79,6 +79,9 @@ macro_rules! impl_vec1view_for_ndarray {
                     None
                 } else {
                     use crate::prelude::UninitVec;
+                    // the buffer form writes nothing for a zero window: refuse it, like the
+                    // default body does, instead of exposing an unwritten buffer
+                    assert!(window > 0 || len == 0, "window must be greater than 0");
                     let mut out = O::uninit(len);
                     self.rolling_custom_to::<O, _, _>(window, f, O::uninit_ref_mut(&mut out));
                     Some(unsafe { out.assume_init() })
@@ -100,6 +103,9 @@ macro_rules! impl_vec1view_for_ndarray {
                     self.rolling_apply_to::<O, _, _>(window, f, out);
                     None
                 } else {
+                    // the buffer form writes nothing for a zero window: refuse it, like the
+                    // default body does, instead of exposing an unwritten buffer
+                    assert!(window > 0 || len == 0, "window must be greater than 0");
                     let mut out = O::uninit(len);
                     self.rolling_apply_to::<O, _, _>(window, f, O::uninit_ref_mut(&mut out));
                     Some(unsafe { out.assume_init() })
@@ -122,6 +128,9 @@ macro_rules! impl_vec1view_for_ndarray {
                     self.rolling2_apply_to::<O, _, _, _, _>(other, window, f, out);
                     None
                 } else {
+                    // the buffer form writes nothing for a zero window: refuse it, like the
+                    // default body does, instead of exposing an unwritten buffer
+                    assert!(window > 0 || len == 0, "window must be greater than 0");
                     let mut out = O::uninit(len);
                     self.rolling2_apply_to::<O, _, _, _, _>(other, window, f, O::uninit_ref_mut(&mut out));
                     Some(unsafe { out.assume_init() })
@@ -143,6 +152,9 @@ macro_rules! impl_vec1view_for_ndarray {
                     self.rolling_apply_idx_to::<O, _, _>(window, f, out);
                     None
                 } else {
+                    // the buffer form writes nothing for a zero window: refuse it, like the
+                    // default body does, instead of exposing an unwritten buffer
+                    assert!(window > 0 || len == 0, "window must be greater than 0");
                     let mut out = O::uninit(len);
                     self.rolling_apply_idx_to::<O, _, _>(window, f, O::uninit_ref_mut(&mut out));
                     Some(unsafe { out.assume_init() })
@@ -165,6 +177,9 @@ macro_rules! impl_vec1view_for_ndarray {
                     self.rolling2_apply_idx_to::<O, _, _, _, _>(other, window, f, out);
                     None
                 } else {
+                    // the buffer form writes nothing for a zero window: refuse it, like the
+                    // default body does, instead of exposing an unwritten buffer
+                    assert!(window > 0 || len == 0, "window must be greater than 0");
                     let mut out = O::uninit(len);
                     self.rolling2_apply_idx_to::<O, _, _, _, _>(
                         other,
